@@ -168,3 +168,10 @@ SHARDS.update({
     "urwid/widget/columns.py:Columns._get_fixed_column_sizes": (2, 5),
     "urwid/widget/columns.py:Columns.get_column_sizes#sized": (2, 5),
 })
+
+# contracts/C20_shards.py shards_trim_sides: the full two-shard bound (~5900 paths, ~6 min on one core) in the thorough tier;
+# the quick tier verifies the instance "two cviews over none" (the second shard shows only what hangs down from the first)
+THOROUGH_ONLY += ("urwid/canvas.py:shards_trim_sides#two-shards",)
+SHARDS.update({
+    "urwid/canvas.py:shards_trim_sides#two-shards": (16, 8),
+})
